@@ -59,7 +59,7 @@ class Plan:
 
 
 class Outcome:
-    __slots__ = ("op", "plan", "raised", "retval", "events", "state_changed")
+    __slots__ = ("op", "plan", "raised", "retval", "events", "state_changed", "expected_gone")
 
     def __init__(self, op, plan):
         self.op = op
@@ -68,6 +68,7 @@ class Outcome:
         self.retval = None
         self.events = []  # (category, bucket, detail)
         self.state_changed = None
+        self.expected_gone = []  # real nodes that, according to the model, left the tree in this step
 
 
 def norm_meta(m):
@@ -998,7 +999,10 @@ class Engine:
             if out.raised is not None:
                 out.events.append(("raised", f"valid-op-raised:{route}:{type(out.raised).__name__}", repr(out.raised)[:200]))
             else:
+                old_pairs = dict(self.real_of)
                 new = plan.apply()
+                alive = {m.uid for m in self.model.preorder()}
+                out.expected_gone = [r for uid, r in old_pairs.items() if uid not in alive]
                 if plan.relaxed:
                     self._relax(plan, out)
                 res = None if out.events else self.compare()
